@@ -227,9 +227,49 @@ def c16():
     ]
 
 
+def c10():
+    return [
+        R("c10-useobjparams-no-finally", "C10", PF,
+          "        try:\n            self.set_objparams(objparams)\n            yield\n        finally:\n            self.restore_objparams()",
+          "        self.set_objparams(objparams)\n        yield\n        self.restore_objparams()", "C10-P"),
+        R("c10-uselinop-except-only", "C10", LINOP,
+          "            yield self\n        finally:\n            self.setuniqueparams(methodname, *_orig_params_)",
+          "            yield self\n        except RuntimeError:\n            self.setuniqueparams(methodname, *_orig_params_)\n            raise\n        else:\n            self.setuniqueparams(methodname, *_orig_params_)", "C10-P",
+          note="restores only for RuntimeError: any other exception leaks the substituted parameters"),
+        R("c10-debug-restores-false", "C10", MODES,
+          "@contextmanager\ndef enable_debug():\n    try:\n        dbg_mode = is_debug_enabled()\n        set_debug_mode(True)\n        yield\n    except Exception as e:\n        raise e\n    finally:\n        set_debug_mode(dbg_mode)",
+          "@contextmanager\ndef enable_debug():\n    try:\n        dbg_mode = is_debug_enabled()\n        set_debug_mode(True)\n        yield\n    except Exception as e:\n        raise e\n    finally:\n        set_debug_mode(False)", "C10-P",
+          note="nested enable_debug leaves debug mode off"),
+        R("c10-state-change-read-after", "C10", PF,
+          "            prev_status = self._state_change_allowed\n            self._state_change_allowed = False\n            yield",
+          "            self._state_change_allowed = False\n            prev_status = self._state_change_allowed\n            yield", "C10-P"),
+        R("c10-functional-sets-directly", "C10", "xitorch/optimize/rootfinder.py",
+          "        with fwd_fcn.useobjparams(objparams):\n\n            method = config.pop(\"method\")",
+          "        fwd_fcn.set_objparams(objparams)\n        if True:\n\n            method = config.pop(\"method\")", ["C10-M", "C10-W"]),
+        R("c10-bare-cm-call", "C10", JAC,
+          "            with torch.enable_grad(), self.fcn.useobjparams(self.objparams):\n                self.__update_params()\n                yparam = self.params[self.idx]\n                yout = self.fcn(*self.params)  # (*nout)\n\n        gout1",
+          "            self.fcn.useobjparams(self.objparams)\n            with torch.enable_grad():\n                self.__update_params()\n                yparam = self.params[self.idx]\n                yout = self.fcn(*self.params)  # (*nout)\n\n        gout1", "C10-W"),
+        R("c10-pop-front", "C10", PF, "        old_objparams, identical = self._restore_stack.pop(-1)", "        old_objparams, identical = self._restore_stack.pop(0)", "C10-L"),
+        R("c10-push-after-set", "C10", PF,
+          "        self._restore_stack.append((self._cur_objparams, identical))\n        if not identical:\n            allobjparams = self._uniq.map_unique_objs(objparams)\n            self._set_all_obj_params(allobjparams)\n            self._cur_objparams = list(objparams)",
+          "        if not identical:\n            allobjparams = self._uniq.map_unique_objs(objparams)\n            self._set_all_obj_params(allobjparams)\n        self._restore_stack.append((self._cur_objparams, identical))\n        if not identical:\n            self._cur_objparams = list(objparams)", "C10-L"),
+        R("c10-nn-restore-skips-none", "C10", PF,
+          "        for (name, param) in zip(self.names, objparams):\n            del_attr(self.obj, name)",
+          "        for (name, param) in zip(self.names, objparams):\n            if param is None:\n                continue\n            del_attr(self.obj, name)", "C10-O"),
+        R("c10-nn-no-delete", "C10", PF,
+          "            del_attr(self.obj, name)  # delete required in case the param is not a torch.nn.Parameter\n", "", "C10-O"),
+        R("c10-restore-does-not-record", "C10", PF,
+          "            self._set_all_obj_params(allobjparams)\n            self._cur_objparams = old_objparams",
+          "            self._set_all_obj_params(allobjparams)", "C10-L"),
+        R("c10-listop-restores-clones", "C10", EM,
+          "            all_tensors_copy = copy.copy(all_tensors)\n            _set_tensors(self, all_tensors_copy)",
+          "            all_tensors_copy = copy.copy(copy_tensors0)\n            _set_tensors(self, all_tensors_copy)", "C10-P"),
+    ]
+
+
 def all_mutants():
     ms = []
-    for f in (defects_back, c01, c02, c03, c04, c08, c13, c16):
+    for f in (defects_back, c01, c02, c03, c04, c08, c13, c16, c10):
         ms += f()
     import importlib
     try:
